@@ -34,7 +34,7 @@ PROPS["C11"] = dict(
 )
 
 # ---------------------------------------------------------------------------------------------
-import os, subprocess, json, re, time, concurrent.futures
+import os, subprocess, json, re, time, shutil, concurrent.futures
 
 VERIF = os.path.dirname(os.path.dirname(os.path.abspath(__file__)))
 BIN = os.path.join(VERIF, "target", "release")
@@ -497,11 +497,80 @@ def run_stateful(pid, streams, workdir, wanted_substrings):
     return items, n
 
 
+def run_faults(cases, small, large, faults=None, timeout=30):
+    """harness `faults`: (case id, size, fault, outcome name, outcome detail, same, text hash) per trial"""
+    args = [os.path.join(BIN, "faults"), "--cases", cases, "--small", str(small), "--large", str(large), "--timeout", str(timeout)]
+    if faults:
+        args += ["--faults", ",".join(faults)]
+    r = subprocess.run(args, stdout=subprocess.PIPE, stderr=subprocess.PIPE, text=True)
+    trials = []
+    for line in r.stdout.split("\n"):
+        if not line.startswith("(trial"):
+            continue
+        t = parse_sexp(line)[0]
+        outcome = t[4]
+        oc = outcome if isinstance(outcome, str) else outcome[0]
+        detail = "" if isinstance(outcome, str) or len(outcome) < 2 else sx(outcome[1])
+        th = next((sx(x[1]) for x in t[6:] if isinstance(x, list) and x and x[0] == "text-hash"), None)
+        trials.append((sx(t[1]), t[2], sx(t[3]), oc, detail, t[5], th))
+    return trials, r.stderr[-300:]
+
+
 def extra_c16(pid, tier, seed, workdir, known, write_replay):
-    items, n = run_stateful(pid, [("gen", "unicode", seed, 60 if tier == "quick" else 600), ("gen", "general", seed, 40 if tier == "quick" else 400)],
+    items, n = run_stateful(pid, [("provoke",), ("gen", "unicode", seed, 60 if tier == "quick" else 600), ("gen", "general", seed, 40 if tier == "quick" else 400)],
                             workdir, ["include", "embedded"])
+    cov = {"stateful_sequences": n}
+    # (a) include variant with files PRESENT at the include paths (relative to the working directory) whose contents differ from the
+    #     source: the generator must still emit include_str!(path) and nothing else may change (it does not look at the file system)
+    pop = os.path.join(workdir, "populated")
+    shutil.rmtree(pop, ignore_errors=True)
+    os.makedirs(pop)
+    cases = write_stream_file([("genpath", "general", seed, 42 if tier == "quick" else 400)], os.path.join(workdir, "fs.cases"))
+    made = 0
+    for l in open(cases):
+        m = re.search(r'\(path "((?:[^"\\]|\\.)*)"\)', l)
+        if not m:
+            continue
+        pth = re.sub(r"\\u\{([0-9a-fA-F]+)\}", lambda mm: chr(int(mm.group(1), 16)), m.group(1))
+        if not pth or pth.startswith("/") or ".." in pth or pth.endswith("/") or any(ord(c) < 32 for c in pth) or "\\" in pth:
+            continue
+        try:
+            full = os.path.join(pop, pth)
+            os.makedirs(os.path.dirname(full), exist_ok=True)
+            with open(full, "w") as f:
+                f.write("// a file that is NOT the shader source\n@compute @workgroup_size(1) fn other() {}\n")
+            made += 1
+        except OSError:
+            pass
+    d = subprocess.run([os.path.join(BIN, "dump"), "--opts", "0,48"], stdin=open(cases), stdout=subprocess.PIPE, text=True, cwd=pop)
+    v = subprocess.run([DRIVER, "C16"], input=d.stdout, stdout=subprocess.PIPE, text=True)
+    nfs = 0
+    for line in v.stdout.split("\n"):
+        if not line.startswith("V|C16|"):
+            continue
+        f = line.split("|", 6)
+        nfs += 1
+        for which in (f[5], f[4]):
+            if which.startswith("fail:"):
+                items.append(("c16#" + re.sub(r"[^A-Za-z0-9_.\-]", "-", which[5:].split(":")[0].split("#")[-1])[:40] + "-with-files-present",
+                              f"with a different file present at the include path: {which[5:200]}", f[2], True))
+    cov["include_paths_populated"] = made
+    cov["populated_runs"] = nfs
+    if made == 0 or nfs == 0:
+        items.append(("c16#harness-populated", f"populated-directory run did not happen (files {made}, verdicts {nfs})", "", False))
+    # (b) an embedded source larger than 64 KiB through the formatter-fallback path (raw tokens): SOURCE must still be the input
+    big = write_stream_file([("big", 1500, 1)], os.path.join(workdir, "bigsrc.cases"))
+    trials, err = run_faults(big, 0, 1, ["absent", "exit1-after-drain", "real"])
+    cov["big_source_fallback_trials"] = len(trials)
+    for cid, size, fault, oc, detail, same, th in trials:
+        if not cid.startswith("big:"):
+            continue
+        if oc != "ok" or same == "false":
+            items.append(("c16#big-source-fallback", f"embedded source > 64 KiB, formatter fault '{fault}': outcome {oc} {detail[:100]}, same program as with the formatter off: {same}", cid, True))
+    if not any(t[0].startswith("big:") for t in trials):
+        items.append(("c16#harness-big", "the large embedded source was not run: " + err, "", False))
     viol, kn = classify_and_report(pid, items, known, write_replay, {})
-    return {"stateful_sequences": n}, viol, kn, []
+    return cov, viol, kn, []
 
 
 PROPERTY_FAULTS = ["absent", "exit1-after-drain", "exit1-no-read", "kill-self", "kill-before-read", "kill-after-partial-output", "exit1-after-partial-output",
@@ -554,7 +623,7 @@ def extra_c19(pid, tier, seed, workdir, known, write_replay):
                 items.append(("same-program#different", f"rustfmt on vs off are different programs (off {off}, on {on})", cid, True))
     if ntr == 0:
         items.append(("faults#harness", "faults harness produced no trials: " + r.stderr[-300:], "", False))
-    st_items, st_n = run_stateful(pid, [("gen", "structs", seed, 40 if tier == "quick" else 400)], workdir, ["rustfmt"])
+    st_items, st_n = run_stateful(pid, [("provoke",), ("names", 29, seed), ("gen", "structs", seed, 40 if tier == "quick" else 400)], workdir, ["rustfmt"])
     items += st_items
     case_by_id = {}
     for l in open(cases):
@@ -589,7 +658,7 @@ def extra_c18(pid, tier, seed, workdir, known, write_replay):
             cov["determinism_summary"] = line[:600]
     if "determinism_summary" not in cov:
         items.append(("determinism#harness", "determinism harness gave no summary: " + r.stderr[-300:], "", False))
-    st_items, st_n = run_stateful(pid, [("gen", "general", seed, 60 * n), ("gen", "structs", seed, 30 * n)], workdir, [""])
+    st_items, st_n = run_stateful(pid, [("provoke",), ("names", 29, seed), ("gen", "general", seed, 60 * n), ("gen", "structs", seed, 30 * n)], workdir, [""])
     items += st_items
     cov["stateful_sequences"] = st_n
     # concurrent calls on DIFFERENT large shaders with the formatter on (outputs above the pipe buffer)
@@ -604,6 +673,21 @@ def extra_c18(pid, tier, seed, workdir, known, write_replay):
             cov["determinism_big_formatter_summary"] = line[:400]
     if "determinism_big_formatter_summary" not in cov:
         items.append(("determinism#harness-big", "determinism (large, rustfmt on) gave no summary: " + rb.stderr[-300:], "", False))
+    # a formatter that merely takes long (6 s) must give byte for byte what a fast one gives
+    fx = write_stream_file([("fixtures",)], os.path.join(workdir, "slow.cases"))
+    trials, err = run_faults(fx, 1, 0, ["real", "slow-6s-ok"], timeout=60)
+    by = {}
+    for cid, size, fault, oc, detail, same, th in trials:
+        by.setdefault(cid, {})[fault] = (oc, th)
+    nslow = 0
+    for cid, d in by.items():
+        if "real" in d and "slow-6s-ok" in d:
+            nslow += 1
+            if d["real"] != d["slow-6s-ok"]:
+                items.append(("determinism#slow-formatter", f"case {cid}: with a formatter that takes 6 s the result is {d['slow-6s-ok']}, with a fast one {d['real']}", cid, True))
+    cov["slow_formatter_cases"] = nslow
+    if nslow == 0:
+        items.append(("determinism#harness-slow", "slow-formatter run gave no comparable pair: " + err, "", False))
     viol, kn = classify_and_report(pid, items, known, write_replay, {})
     return cov, viol, kn, []
 
@@ -633,7 +717,7 @@ def extra_c17(pid, tier, seed, workdir, known, write_replay):
                 items.append(("corrupt#panic-on-rejected-source", f"{sx(t[1])} corruption {t[2]}: {sx(t[3])[:160]}", sx(t[1]), True))
     if ncor == 0:
         items.append(("corrupt#harness", "corrupt harness produced no cases", "", False))
-    st_items, st_n = run_stateful(pid, [("gen", "general", seed, 80 * n), ("gen", "consts", seed, 20 * n)], workdir, ["capabilities"])
+    st_items, st_n = run_stateful(pid, [("provoke",), ("gen", "general", seed, 80 * n), ("gen", "consts", seed, 20 * n)], workdir, ["capabilities"])
     items += st_items
     case_by_id = {}
     for l in open(cases):
